@@ -80,8 +80,8 @@ func TestSurvey(t *testing.T) {
 	for _, k := range keys {
 		fmt.Printf("%6d  %s\n", hist[k], k)
 		ex := example[k]
-		if len(ex) > 1500 {
-			ex = ex[:1500] + "..."
+		if limit := 1500 + 20000*len(os.Getenv("C19_SURVEY_FULL")); len(ex) > limit {
+			ex = ex[:limit] + "..."
 		}
 		fmt.Printf("        e.g. %s\n", strings.ReplaceAll(ex, "\n", "\n        "))
 	}
